@@ -195,7 +195,7 @@ allocated after `e` was evaluated; no two of them, and none of them and `obj`, h
 theorem vardecl_stores_copy (n ln ty : Nat) (vars : List Ident) (e : Expr) (s s' : VM ν) (r : Addr)
     (hty : ty = 1 ∨ ty = 3)
     (h : evalStmt (n+1) (.varDecl ln [(ty, vars, e)]) s = (.ok r, s')) :
-    ∃ s0 obj s1, setTopFrame (fun fr => { fr with line := ln }) s = (.ok (), s0) ∧ evalExpr n e s0 = (.ok obj, s1) ∧
+    ∃ s0 obj s1, setTopFrame (fun fr => { fr with line := ln, started := true }) s = (.ok (), s0) ∧ evalExpr n e s0 = (.ok obj, s1) ∧
       ∀ t, content n s1.heap obj = some t →
         ∃ bs : List Addr, bs.length = vars.length ∧
           (∀ b ∈ bs, content n s'.heap b = some t) ∧
@@ -214,7 +214,7 @@ theorem vardecl_stores_copy (n ln ty : Nat) (vars : List Ident) (e : Expr) (s s'
 /-- a 令 statement is the sequence of its groups, each group being evaluated as above -/
 theorem vardecl_groups (n ln : Nat) (pairs : List (Nat × List Ident × Expr)) :
     evalStmt (ν := ν) (n+1) (.varDecl ln pairs) = (do
-      setTopFrame fun fr => { fr with line := ln }
+      setTopFrame fun fr => { fr with line := ln, started := true }
       pairs.forM (declPair n)
       newNull) := evalStmt_varDecl n ln pairs
 
@@ -271,7 +271,7 @@ theorem element_assign_stores_copy (n ln l rt mt : Nat) (root : Expr) (mid : Opt
 /-- 遍历 with one loop variable, with the pass named (`iterPass1`) -/
 theorem iterate_unfolds (n ln : Nat) (e : Expr) (x : Ident) (body : Option (List Stmt)) :
     evalStmt (ν := ν) (n+1) (.iterate ln e [x] body) = (do
-      setTopFrame fun fr => { fr with line := ln }
+      setTopFrame fun fr => { fr with line := ln, started := true }
       withScope do
         let target ← evalExpr n e
         let vn ← matchIDName x.lit
@@ -331,6 +331,32 @@ theorem new_object_copies_defaults (n : Nat) (cv : Addr) (params : List Addr) (s
   rcases (hall v hv).2 j hr with h | h
   · exact h
   · exact absurd h (not_shared_of_mutable hm)
+
+/-- **type_keeps_own_copy_of_default.**  A type declaration evaluates each default and keeps a COPY of it
+(`evalClassDecl` = … `props.mapM (propDefault n)` …, `evalClassDecl_eq`): where the default expression yields a readable
+value `t` at `v` — e.g. a bare name `其数 = 基`, which yields 基's own cell — the address `b` the type stores reads as `t`,
+every copied-kind cell below `b` is new, and no cell that existed before has changed.  A later in-place change of the
+name (`以基（自增：5）`) therefore cannot reach the default that later objects start from. -/
+theorem type_keeps_own_copy_of_default (n : Nat) (pid : Ident) (e : Expr) (s s1 : VM ν) (v : Addr) (t : Tree ν)
+    (he : evalExpr n e s = (.ok v, s1)) (ht : content n s1.heap v = some t) :
+    ∃ b s2, propDefault n (some pid, e) s = (.ok (pid.lit, b), s2) ∧
+      content n s2.heap b = some t ∧
+      (s1.heap.size ≤ s2.heap.size ∧ ∀ i, i < s1.heap.size → s2.heap[i]? = s1.heap[i]?) ∧
+      (∀ i, Reach s2.heap b i → Mutable s2.heap i → s1.heap.size ≤ i) ∧
+      s2 = { s1 with heap := s2.heap } := by
+  obtain ⟨b, s2, hd, hc, hext, hfresh, hsame, _⟩ := dup_separates n v s1 t ht
+  refine ⟨b, s2, ?_, hc, hext, hfresh, hsame⟩
+  simp [propDefault, bind, he, hd, pure]
+
+/-- the declaration itself, in terms of `propDefault` -/
+theorem type_declaration_unfolds (n ln : Nat) (name : Option Ident) (props : List (Option Ident × Expr))
+    (methods getters : List Stmt) :
+    evalClassDecl (ν := ν) (n+1) (.classDecl ln name props methods getters) = (do
+      let cm ← currentModule
+      let cname ← matchIDNameOpt name
+      let propVals ← props.mapM (propDefault n)
+      classTail cm cname methods propVals) :=
+  evalClassDecl_eq n ln name props methods getters
 
 /-- two objects of one type (default constructor), created one after the other, have no copied-kind cell in common
 through their property values -/
@@ -879,6 +905,12 @@ example : ∃ r s', evalStmt 6 (.iterate 1 (.id ⟨1, "丙"⟩) [⟨1, "甲"⟩]
 /-- literals_fresh: a list literal evaluates to a new cell -/
 example : ∃ s', evalExpr 6 (.arr 1 [.str 1 "x"]) exRun = (.ok 3, s') := ⟨_, rfl⟩
 example : IsLiteral (.arr 1 [.str 1 "x"]) := .inl ⟨_, _, rfl⟩
+
+/-- type_keeps_own_copy_of_default: `其 p 为 丙` where 丙 is the list `[1]` at address 1: the default expression yields
+丙's own cell (address 1), readable; the type stores a new list cell -/
+example : evalExpr 5 (.id ⟨1, "丙"⟩) exRun = (.ok 1, exRun) := by rfl
+example : content 5 exRun.heap 1 = some (.list [.num 1]) := by rfl
+example : ∃ s2, propDefault 5 (some ⟨1, "p"⟩, .id ⟨1, "丙"⟩) exRun = (.ok ("p", 3), s2) := ⟨_, rfl⟩
 
 /-- a type `T` (cell 2) whose default for property `p` is the list `[1]` (cell 1); an instance (cell 4) holding an
 object (cell 3) inside a list -/
